@@ -265,15 +265,26 @@ Proof.
     assert (R2 : Z.rem v base = v mod base) by (apply Z.rem_mod_nonneg; lia).
     assert (R3 : Z.quot v base = v / base) by (apply Z.quot_div_nonneg; lia).
     rewrite R1, R2, R3.
-    rewrite chk_ok by (apply fits_iff; rewrite C1, C2; divlia). cbn [bind].
-    rewrite chk_ok by (apply fits_iff; divlia). cbn [bind].
-    rewrite chk_ok by (apply fits_iff; divlia). cbn [bind].
-    rewrite chk_ok by (apply fits_iff; divlia). cbn [bind].
+    assert (A1 : 0 <= dc mod grouping_of base < 8) by (clear - G Hdc; divlia).
+    assert (A2 : 0 <= v mod base < 16 /\ 0 <= v / base <= v) by (clear - Hb' Hv E; divlia).
+    clear R1 R2 R3.
+    rewrite chk_ok by (apply fits_iff; rewrite C1, C2; lia). cbn [bind].
+    rewrite chk_ok by (apply fits_iff; lia). cbn [bind].
+    rewrite chk_ok by (apply fits_iff; lia). cbn [bind].
+    rewrite chk_ok by (apply fits_iff; lia). cbn [bind].
     rewrite chk_ok by (apply fits_iff; rewrite C1, C2; lia). cbn [bind].
     apply IH; auto; try lia.
-    + divlia.
     + apply div_base_lt; lia.
 Qed.
+
+Lemma digs_unfold : forall f base grp v dc buf,
+  digs (S f) base grp v dc buf =
+    if v >? 0 then
+      digs f base grp (v / base) (dc + 1)
+        (digit_char (v mod base) ::
+         (if negb (dc =? 0) && (dc mod grouping_of base =? 0) && grp then ch_us :: buf else buf))
+    else buf.
+Proof. reflexivity. Qed.
 
 Lemma digs_fuel_S : forall f base grp v dc buf,
   2 <= base -> 0 <= v < 2 ^ (Z.of_nat f - 1) ->
@@ -319,16 +330,16 @@ Proof.
       (* the specification side: one unfolding of digs on |x| *)
       assert (Hspec : digs enc_fuel base grp (Z.abs x) 0 [] =
                       digs enc_fuel base grp ((n + 1) / base) 1 [digit_char ((n + 1) mod base)]).
-      { rewrite Habs. change enc_fuel with (S 64). rewrite <- digs_fuel_S.
-        - remember (S 64) as f1. cbn [digs].
+      { rewrite Habs. change enc_fuel with (S 64).
+        rewrite (digs_fuel_S 64 base grp ((n + 1) / base) 1).
+        - rewrite digs_unfold.
           assert (E1 : (n + 1 >? 0) = true) by lia. rewrite E1.
           cbn [Z.eqb negb andb]. reflexivity.
         - lia.
         - split; [apply Z.div_pos; lia|].
           apply Z.div_lt_upper_bound; [lia|]. change (2 ^ (Z.of_nat 64 - 1)) with (2 ^ 63).
           assert (n + 1 <= 2 ^ 63).
-          { destruct F as (_ & _ & _ & _ & _ & _ & F7 & _). 
-            destruct t as [[] []]; vm_compute in Hn; subst n; try discriminate; rewrite Hn; vm_compute; try discriminate. }
+          { rewrite Hn. clear - Hs. destruct t as [[] []]; try discriminate; vm_compute; discriminate. }
           nia. }
       rewrite Hspec.
       destruct (n mod base + 1 =? base) eqn:Ed.
